@@ -4,8 +4,8 @@ tier="${1:-quick}"
 cd "$(dirname "$0")" || exit 2
 for p in C01 C02 C03 C04 C05 C06 C07 C08 C09 C10 C11 C12 C13 C14 C15 C16 C17 C18 C19 C20; do
   s=$(date +%s)
-  ./check $p $tier > /tmp/run_all.$p.$tier.log 2>&1
+  ./check $p $tier > /tmp/run_all.$p.$tier${RUN_ALL_TAG:+.$RUN_ALL_TAG}.log 2>&1
   rc=$?
   e=$(date +%s)
-  echo "$p rc=$rc $((e-s))s $(grep -c '^VIOLATION' /tmp/run_all.$p.$tier.log) violations $(grep -c '^KNOWN-FINDING' /tmp/run_all.$p.$tier.log) known"
+  echo "$p rc=$rc $((e-s))s $(grep -c '^VIOLATION' /tmp/run_all.$p.$tier${RUN_ALL_TAG:+.$RUN_ALL_TAG}.log) violations $(grep -c '^KNOWN-FINDING' /tmp/run_all.$p.$tier${RUN_ALL_TAG:+.$RUN_ALL_TAG}.log) known"
 done
